@@ -60,16 +60,29 @@ pub fn start_watchdog(out: String, secs: u64) {
 }
 
 // ---------------------------------------------------------------------------------------
-// Timestamp provider that never moves (keepalive is disabled in this simulator)
+// Virtual time: tokio's paused clock.  It moves only when the schedule says `advance`; the runtime
+// is global because only `Runtime::block_on` (not a Handle) turns the timer driver of a
+// current-thread runtime, which is what makes the interval timer of the keepalive fire.
 // ---------------------------------------------------------------------------------------
+pub fn rt() -> &'static tokio::runtime::Runtime {
+    static RT: std::sync::OnceLock<tokio::runtime::Runtime> = std::sync::OnceLock::new();
+    RT.get_or_init(|| {
+        tokio::runtime::Builder::new_current_thread()
+            .enable_time()
+            .start_paused(true)
+            .build()
+            .unwrap()
+    })
+}
+
 #[derive(Copy, Clone, Debug)]
-pub struct FrozenClock;
-impl TimestampProvider for FrozenClock {
+pub struct VClock(tokio::time::Instant);
+impl TimestampProvider for VClock {
     fn now() -> Self {
-        FrozenClock
+        VClock(tokio::time::Instant::now())
     }
-    fn duration_since(&self, _earlier: Self) -> std::time::Duration {
-        std::time::Duration::ZERO
+    fn duration_since(&self, earlier: Self) -> std::time::Duration {
+        self.0.duration_since(earlier.0)
     }
 }
 
@@ -226,6 +239,12 @@ impl WebSocket for SimWs {
                 // RFC 6455: nothing follows a Close frame; a real WebSocket stream ends after it
                 if m == Message::Close {
                     l.ends[self.me].fused = true;
+                }
+                // RFC 6455: the WebSocket layer answers a Ping by itself (the multiplexor relies on it);
+                // the Pong does not pass through the task's queue and needs no send grant
+                if m == Message::Ping && l.ends[self.me].sink == SinkState::Open {
+                    l.ends[self.me].sent_log.push(Message::Pong);
+                    l.ends[self.me].wire.push_back(WireItem::Msg(Message::Pong));
                 }
                 Poll::Ready(Some(Ok(m)))
             }
@@ -660,11 +679,14 @@ pub struct Cfg {
     pub dg_cap: usize,
     pub bind_cap: usize,
     pub retries: usize,
+    /// keepalive interval / timeout in seconds as given to the options API (0 = not set)
+    pub ka_i: u64,
+    pub ka_t: u64,
 }
 impl Cfg {
     pub fn to_json(&self) -> Value {
         json!({"rwnd": self.rwnd, "thr": self.thr, "acceptCap": self.accept_cap, "dgCap": self.dg_cap,
-               "bindCap": self.bind_cap, "retries": self.retries})
+               "bindCap": self.bind_cap, "retries": self.retries, "kaI": self.ka_i, "kaT": self.ka_t})
     }
     pub fn from_json(v: &Value) -> Self {
         Self {
@@ -674,10 +696,14 @@ impl Cfg {
             dg_cap: v["dgCap"].as_u64().unwrap_or(1) as usize,
             bind_cap: v["bindCap"].as_u64().unwrap_or(0) as usize,
             retries: v["retries"].as_u64().unwrap_or(2) as usize,
+            ka_i: v["kaI"].as_u64().unwrap_or(0),
+            ka_t: v["kaT"].as_u64().unwrap_or(0),
         }
     }
     pub fn options(&self) -> Options {
         Options::new()
+            .keepalive_interval(std::time::Duration::from_secs(self.ka_i).into())
+            .keepalive_timeout(std::time::Duration::from_secs(self.ka_t).into())
             .rwnd(self.rwnd)
             .default_rwnd_threshold(self.thr)
             .stream_buffer_size(self.accept_cap)
@@ -697,6 +723,7 @@ pub struct Sim {
     pub real: usize,
     pub dead: bool,
     pub cur_cmd: Value,
+    pub start: tokio::time::Instant,
 }
 
 fn err_kind(e: &penguin_mux::Error) -> &'static str {
@@ -745,7 +772,7 @@ impl Sim {
                     me: i,
                     link: link.clone(),
                 };
-                let (mux, td) = Mux::new_detailed::<_, FrozenClock>(ws, cfgs[i].options(), rng);
+                let (mux, td) = Mux::new_detailed::<_, VClock>(ws, cfgs[i].options(), rng);
                 let t: BoxFut<penguin_mux::Result<()>> = Box::pin(td.into_task());
                 (Some(Arc::new(mux)), Some(t))
             } else {
@@ -778,6 +805,7 @@ impl Sim {
             real,
             dead: false,
             cur_cmd: Value::Null,
+            start: tokio::time::Instant::now(),
         };
         let ev = json!({"ev": "reset", "cfg": {"A": s.eps[0].cfg, "B": s.eps[1].cfg}, "real": real});
         LOG.lock().unwrap().push(ev.to_string());
@@ -1298,6 +1326,14 @@ impl Sim {
                     (sent, rcv)
                 };
                 self.emit(json!({"ev": "task", "e": e, "gr": gr, "gs": gs, "rcv": rcv, "sent": sent, "res": res}));
+                true
+            }
+            "advance" => {
+                // virtual time passes; the timer driver runs, so an interval that is due wakes its task
+                let d = cmd["d"].as_u64().unwrap_or(1);
+                rt().block_on(async { tokio::time::advance(std::time::Duration::from_secs(d)).await });
+                let ms = tokio::time::Instant::now().duration_since(self.start).as_millis() as u64;
+                self.emit(json!({"ev": "advance", "d": d, "t": ms / 1000, "frac": ms % 1000}));
                 true
             }
             "fault" => {
